@@ -99,12 +99,25 @@ def check_obsrange(ctx):
             ctx.ob("C03.1", site, op == "cmp_lt" and k == 1 and obs_only, "-obsrange: observations strictly above element 1 are removed", loc=prog.loc(m, e["node"]),
                    msg="-obsrange upper bound: removes values %s element %s%s" % (">" if op == "cmp_lt" else ">=", k, "" if obs_only else " (not restricted to the observation field)"))
     ctx.need(lows >= 1 and highs >= 1, "%s: the two -obsrange masking stores were not found" % site)
-    # the range is applied on every request of the observation field (no one-shot flag)
+    # the range is applied on every request of the observation field (no one-shot flag, no other condition)
     for e in st:
-        extra = [c.key()[:60] for c, pol in e["conds"] if "$self._obs_range" not in c.key() and "_get_scores_cache" not in c.key()
-                 and "input_index" not in c.key() and "exception" not in c.key()]
+        if not (isinstance(e["value"], Rat) and e["value"].key() == "$nan"):
+            continue
+        extra = []
+        for c, pol in e["conds"]:
+            k = c.key()
+            if "_get_scores_cache" in k or "$input_index" in k or k.startswith("exception("):
+                continue        # cache hit / argument check of the enclosing function
+            for lf in q.leaves(c, "and"):
+                lk = lf.key()
+                if lk == "cmp_ne($None - $self._obs_range,0)" and pol:
+                    continue
+                if "call:verif.field.Obs()" in lk and lf.as_atom() is not None and lf.as_atom().func == "cmp_eq" and pol \
+                        and "$self." not in lk:
+                    continue
+                extra.append(lk[:80])
         ctx.ob("C03.1", site, not extra, "-obsrange masking depends only on the field being Obs and the range being given", loc=prog.loc(m, e["node"]),
-               msg="-obsrange masking is additionally conditional on %s" % extra, nontrivial=False)
+               msg="-obsrange masking is additionally conditional on %s: it is not applied on every request / for every input" % extra)
     # empty selection -> NaN sentinel
     sent = [a for a in trace.assigns(ev, "scores") if q.has_cond(a["conds"], lambda c: "attr:shape" in c.key() and c.as_atom() is not None and c.as_atom().func == "cmp_eq", True)]
     ok = bool(sent) and all(q.mentions(a["value"], "$nan") for a in sent)
